@@ -115,6 +115,16 @@ func runTotal(m *xpath.Machine, mode string) (o runOutcome) {
 		res = xpath.NewCtxFromCurrent(context.Background(), m, &xpm.Entry{T: &xpm.Tree{}}).Run()
 	case "run-failing":
 		res = xpath.NewCtxFromCurrent(context.Background(), m, &xpm.Entry{T: &xpm.Tree{FailAt: 1}}).Run()
+	case "run-cancelled":
+		// "any context": the caller's Go context is already cancelled when the run starts
+		gc, cancel := context.WithCancel(context.Background())
+		cancel()
+		res = xpath.NewCtxFromCurrent(gc, m, &xpm.Entry{T: &xpm.Tree{}}).Run()
+	case "run-cancel-in-callback":
+		// ... or is cancelled while the first data-tree callback is in progress
+		gc, cancel := context.WithCancel(context.Background())
+		defer cancel()
+		res = xpath.NewCtxFromCurrent(gc, m, &xpm.Entry{T: &xpm.Tree{CancelAt: 1, Cancel: cancel}}).Run()
 	}
 	o.hasErr = res.GetError() != nil
 	_, e1 := res.GetBoolResult()
@@ -189,7 +199,7 @@ func total(args []string) {
 					continue
 				}
 				machines++
-				for _, mode := range []string{"run-nil", "run-tree", "run-failing"} {
+				for _, mode := range []string{"run-nil", "run-tree", "run-failing", "run-cancelled", "run-cancel-in-callback"} {
 					runs++
 					if nHangs >= maxHangs {
 						continue
